@@ -24,25 +24,31 @@ Example C01_reaches_def : forall sym_hash hstate host e vin h v h' t,
     current_value hstate sfin = Some v /\ hs sfin = h' /\ observable (tr sfin) = t.
 Proof. intros. reflexivity. Qed.
 
-(* what "computes r with trace t up to the names of expression values" means *)
-Definition computes (sym_hash : list N -> N) (hstate : Type) (host : hstate -> host_call -> hstate * option val)
-           (rho : N -> N) (e : expr) (vin : val) (h : hstate) (r : val) (h' : hstate) (t : trace) : Prop :=
-  exists s0 fuel steps sfin v,
-    initial hstate (compile_prog sym_hash e) 0 vin h = Some s0 /\
-    run hstate host fuel (compile_prog sym_hash e) s0 = REnd hstate sfin steps /\
-    current_value hstate sfin = Some v /\ val_rel rho r v /\
-    hs sfin = h' /\ trace_rel rho t (observable (tr sfin)).
-
-(* The full statement: every program of the core grammar (printable: wf_prog and
-   minimal parentheses) outside the known-finding classes, every input value,
-   every host that declines defer_op; nested expressions labelled arbitrarily
-   (distinct labels), results equal up to the renaming rho of expression values. *)
+(* The full statement: every printable program of the core grammar outside the
+   known-finding classes, every input value, every host that declines defer_op:
+   the program the BUILDER MODEL makes of the parsed printed tokens
+   (Model/Parser.v, Model/BuilderWL.v: transliterations of parse() and build(),
+   tied to the Rust by correspondence) computes what the evaluator says.
+   Nested expressions are labelled with the jump-table indices of their bodies,
+   which is what the host sees of an expression value. *)
 Definition C01_full_statement : Prop :=
   forall sym_hash hstate host, declines_defer hstate host ->
-  forall e vin h n r h' t,
-  printable e = true -> known_K1 e = false -> known_K2 e = false ->
-  eval_prog sym_hash hstate host n e vin h = ODone r (h', t) ->
-  exists rho, computes sym_hash hstate host rho e vin h r h' t.
+  forall e vin h n v h' t,
+  printable e = true -> known_K1 e = false -> known_K2 e = false -> labels_ok e = true ->
+  eval_prog sym_hash hstate host n e vin h = ODone v (h', t) ->
+  reaches_built sym_hash hstate host e vin h v h' t.
+
+(* ... proved wherever the AST compiler agrees with the builder model (which
+   C01_compile_builder_bounded_3 establishes for every AST of at most 3
+   constructors and every check run validates on every generated program) *)
+Theorem C01_full_where_builder_agrees : forall sym_hash hstate host, declines_defer hstate host ->
+  forall e vin h n v h' t,
+  wl_program sym_hash e = Ok (compile_prog sym_hash e, 0) ->
+  printable e = true -> known_K1 e = false -> known_K2 e = false -> labels_ok e = true ->
+  eval_prog sym_hash hstate host n e vin h = ODone v (h', t) ->
+  reaches_built sym_hash hstate host e vin h v h' t.
+Proof. exact all_programs_built. Qed.
+Print Assumptions C01_full_where_builder_agrees.
 
 (* Stages 1-4, proved for ALL programs of the core grammar: every construct of
    Spec/Ast.v.  What separates it from the full statement: the labels of the
